@@ -242,6 +242,13 @@ impl Expr {
                             )
                         }
                     }
+
+                    // the members a module exports are read-only through any alias of the module
+                    if let Expr::DotLookup { lhs: object, .. } = lhs.as_ref() {
+                        if let TypeLayout::Module(_) = object.for_type(flags)?.disregard_distractors(false) {
+                            bail!("cannot reassign using {op} to an export of a module, which is const")
+                        }
+                    }
                 }
 
                 let lhs = if op.is_op_assign() {
